@@ -1,9 +1,9 @@
 SPECIFICATION Spec
 CONSTANTS
-  Fuel = 2
-  MaxStmt = 1
+  Fuel = 5
+  MaxStmt = 2
   MaxTok = 60
-  Imports = TRUE
+  Imports = FALSE
 INVARIANT TypeOK
 INVARIANT RangesOK
 INVARIANT ProdsOK
